@@ -243,9 +243,9 @@ MERGE_ASSUME = ['history items carry no history of their own (C17) and time stam
                 'content tokens = interned canonical dumps of every field other than uuid/times/history(/children)']
 for pid, txt, part in [
     ('C13', 'Kernel-checked: merge_self — for every well-formed database (root a group, pairwise distinct UUIDs, groups carry a modification time, no tombstone for a live node) '
-            'merging it with an identical copy returns Ok, no events, the same tree and the same tombstones; component idempotence (history union, entry merge, group merge). '
+            'merging it with an identical copy returns Ok, no events, the same tree and the same tombstones; a merge that reports no event changed nothing (C13_no_events_means_unchanged); component idempotence (history union, entry merge, group merge). '
             'Idempotence of a repeated merge of two different replicas is validated by the exhaustive/randomised enumeration on the real code and on the faithful model.',
-     ['C13_twice (a second merge of the same source is a no-op) is stated but not proved; proved in full: the self-merge clause (merge_self) and the third clause (C13_result_self_merge: the merge result merged back into itself), component-level idempotence']),
+     ['C13_twice (a second merge of the same source is a no-op: no events, the whole database unchanged) is stated but not proved in full; proved of it: the content of every shared entry and the own data of every shared group stay as the first merge left them (C13_twice_entry_content_partial, C13_twice_group_content_partial); proved in full: the self-merge clause (merge_self) and the third clause (C13_result_self_merge: the merge result merged back into itself), component-level idempotence']),
     ('C14', 'Kernel-checked for the whole merge, for every destination and source that are groups with pairwise distinct UUIDs below them: an entry both replicas hold has, wherever the merge leaves it, the content of the '
             'destination\'s version unless the source\'s modification time is strictly later, then the source\'s (C14_entry_last_writer_wins); the same for a group\'s own name / notes / icon / settings (C14_group_last_writer_wins); '
             'with different modification times the entry\'s history represents every history item of both versions and the loser\'s uncommitted current version (C14_history_union); it lives below the group that holds it in the source when the source moved it strictly later (and the merge reaches it outside every group the destination deleted), below the destination\'s otherwise (C14_entry_last_mover_wins, C14_entry_destination_move_stands); a node only the source holds is created below the group that holds it there (C14_created_under_same_parent); every history stays newest first without a time twice (C14_histories_sorted); every source node without a tombstone in the '
